@@ -33,7 +33,10 @@ func NewSlotDef(s *slip.Scope, def slip.Object, depth int) *SlotDef {
 	case slip.Symbol:
 		sd.name = string(td)
 	case slip.List:
-		// If length is less than 1 then it would be nil and not a list.
+		// The reader makes an empty list, not nil, of a () inside a list.
+		if len(td) == 0 {
+			slip.TypePanic(s, depth, "slot-specifier", def, "symbol", "list")
+		}
 		if sym, ok := td[0].(slip.Symbol); ok {
 			sd.name = string(sym)
 		} else {
